@@ -62,7 +62,7 @@ func C20(tier string) {
 		dy = []float64{-4, -2, -1, -0.5, 0, 0.25, 1, 3, 4}
 	}
 	nd := []float64{-0.7, 0.1, 1.0 / 3, 2.3}
-	r.Rule(fmt.Sprintf("primaries: all unordered triples of chromaticity lattice points (step %.2f, x,y in [0.05,0.80], x+y<=1) with triangle area >= 0.01 x every lattice white strictly inside, plus %d published RGB spaces in all 6 primary orders; every sequence of up to 3 requests over 2 primary sets x 3 primary-luminance triples x 3 whites x 3 white luminances (0.5, 1, 100; the matrix scales with the white\u2019s Y and does not depend on the primaries\u2019 Y); algebra: every matrix with entries in %v (9 entries) and in the non-dyadic alphabet %v with |det| >= 1e-3: Inverse, Transpose, MulV x 4 vectors, MulM both ways x 14 partner matrices against row-major float64 / Gauss-Jordan; singular: every matrix from both alphabets with a repeated or zero column must panic; distinct = configurations / matrices passing the non-degeneracy filter", step, len(refs.PublishedSpaces), dy, nd))
+	r.Rule(fmt.Sprintf("primaries: all unordered triples of chromaticity lattice points (step %.2f, x,y in [0.05,0.80], x+y<=1) with triangle area >= 0.01 x every lattice white strictly inside, plus %d published RGB spaces in all 6 primary orders; every sequence of up to 3 requests (each for both directions, RGB->XYZ only or XYZ->RGB only) over 2 primary sets x 3 primary-luminance triples x 3 whites x 3 white luminances (0.5, 1, 100; the matrix scales with the white\u2019s Y and does not depend on the primaries\u2019 Y); algebra: every matrix with entries in %v (9 entries) and in the non-dyadic alphabet %v with |det| >= 1e-3: Inverse, Transpose, MulV x 4 vectors, MulM both ways x 14 partner matrices against row-major float64 / Gauss-Jordan; singular: every matrix from both alphabets with a repeated or zero column must panic; distinct = configurations / matrices passing the non-degeneracy filter", step, len(refs.PublishedSpaces), dy, nd))
 	r.Assume("reference matrices derive from the same float32 chromaticities converted exactly to float64 (the package converts xyY->XYZ in float32; tolerance 4e-7*(1+cond) covers that step)")
 	r.Assume("exactly singular means a repeated or zero column, for which the package's adjugate expansion cancels term by term; matrices singular only in exact arithmetic are not demanded to panic")
 
@@ -187,7 +187,11 @@ func C20(tier string) {
 		nearBlue := s
 		nearBlue.B = refs.XY{X: 0.15004, Y: 0.05996}
 		reqs = append(reqs, req{nearBlue, [3]float32{1, 1, 1}, refs.D65pub, 1})
-		n := len(reqs)
+		// every request comes in three kinds: both directions, RGB->XYZ only,
+		// XYZ->RGB only (a direction asked for on its own must not depend on what
+		// the other direction was last asked for)
+		nreq := len(reqs)
+		n := 3 * nreq
 		for l := 1; l <= 3; l++ {
 			tot := ipow(n, l)
 			if l == 3 && tier != "thorough" {
@@ -197,19 +201,31 @@ func C20(tier string) {
 				q := idx
 				var trace []string
 				for k := 0; k < l; k++ {
-					rq := reqs[q%n]
+					rq, kind := reqs[(q%n)%nreq], (q%n)/nreq
 					q /= n
 					f := func(v refs.XY, yy float32) ciexyy.Color {
 						return ciexyy.Color{X: float32(v.X), Y: float32(v.Y), YY: yy}
 					}
 					A, B, C, W := f(rq.p.R, rq.yy[0]), f(rq.p.G, rq.yy[1]), f(rq.p.B, rq.yy[2]), f(rq.w, rq.wy)
-					got := m3of(ciexyz.TransformToXYZForXYYPrimaries(A, B, C, W))
-					gotInv := m3of(ciexyz.TransformFromXYZForXYYPrimaries(A, B, C, W))
 					ref := refs.RGBToXYZ(xyOf(A), xyOf(B), xyOf(C), xyOf(W))
 					for i := range ref {
 						for j := range ref[i] {
 							ref[i][j] *= float64(rq.wy) // the matrix is linear in the white point's XYZ
 						}
+					}
+					if kind == 2 {
+						gotInv := m3of(ciexyz.TransformFromXYZForXYYPrimaries(A, B, C, W))
+						trace = append(trace, fmt.Sprintf("XYZ->RGB only: %s primaries with Y=%v, white (%g,%g) Y=%g", rq.p.Name, rq.yy, rq.w.X, rq.w.Y, rq.wy))
+						if d := refs.MaxAbsDiff(gotInv.Mul(ref), refs.Identity()); !(d <= 1e-5*(1+ref.Cond())) {
+							r.Violate("primaries/sequence-from-only", fmt.Sprintf("request %d of the sequence %v: (XYZ->RGB) x reference(RGB->XYZ) differs from identity by %.3g", k+1, trace, d), map[string]interface{}{"sequence": trace}, nil)
+						}
+						r.Eval(1)
+						continue
+					}
+					got := m3of(ciexyz.TransformToXYZForXYYPrimaries(A, B, C, W))
+					gotInv := refs.M3{}
+					if kind == 0 {
+						gotInv = m3of(ciexyz.TransformFromXYZForXYYPrimaries(A, B, C, W))
 					}
 					gv, wv := got.MulV(refs.V3{1, 1, 1}), refs.XYZFromXYY(float64(W.X), float64(W.Y), float64(rq.wy))
 					dw := 0.0
@@ -219,12 +235,12 @@ func C20(tier string) {
 					if !(dw <= 4e-6*float64(rq.wy)*(1+ref.Cond())) {
 						r.Violate("primaries/sequence-white", fmt.Sprintf("request %d of a sequence (%s primaries, white (%g,%g) Y=%g, after %v): (1,1,1) maps %.3g away from the white point's XYZ", k+1, rq.p.Name, rq.w.X, rq.w.Y, rq.wy, trace, dw), map[string]interface{}{"sequence": trace}, nil)
 					}
-					trace = append(trace, fmt.Sprintf("%s primaries with Y=%v, white (%g,%g) Y=%g", rq.p.Name, rq.yy, rq.w.X, rq.w.Y, rq.wy))
+					trace = append(trace, fmt.Sprintf("%s%s primaries with Y=%v, white (%g,%g) Y=%g", map[int]string{0: "", 1: "RGB->XYZ only: "}[kind], rq.p.Name, rq.yy, rq.w.X, rq.w.Y, rq.wy))
 					tol := 4e-7 * (1 + ref.Cond()*4) * math.Max(1, ref.NormInf())
 					if d := refs.MaxAbsDiff(got, ref); !(d <= tol) {
 						r.Violate("primaries/sequence", fmt.Sprintf("request %d of the sequence %v: RGB->XYZ differs from the reference by %.3g", k+1, trace, d), map[string]interface{}{"sequence": trace}, nil)
 					}
-					if d := refs.MaxAbsDiff(gotInv.Mul(got), refs.Identity()); !(d <= 1e-9*math.Max(1, ref.Cond())) {
+					if d := refs.MaxAbsDiff(gotInv.Mul(got), refs.Identity()); kind == 0 && !(d <= 1e-9*math.Max(1, ref.Cond())) {
 						r.Violate("primaries/sequence-inverse", fmt.Sprintf("request %d of the sequence %v: (XYZ->RGB)(RGB->XYZ) differs from identity by %.3g", k+1, trace, d), map[string]interface{}{"sequence": trace}, nil)
 					}
 					r.Eval(1)
